@@ -9,7 +9,9 @@ import (
 	"sort"
 	"strings"
 	"sync"
+	"sync/atomic"
 	"testing"
+	"time"
 )
 
 type BatchParams struct {
@@ -199,6 +201,36 @@ func TestBatch(t *testing.T) {
 	var mu sync.Mutex
 	var wg sync.WaitGroup
 	jobs := make(chan *Scenario)
+	// Real-clock watchdog (outside every bubble): a router goroutine that spins
+	// or waits on a mutex is not "durably blocked", so its bubble never becomes
+	// idle and virtual time stops - the scenario would hang until the test
+	// timeout.  The stuck scenario is named in <out>.stuck and the process ends;
+	// the check replays it alone.
+	started := make([]atomic.Int64, p.Workers)
+	stopDog := make(chan struct{})
+	defer close(stopDog)
+	go func() {
+		tick := time.NewTicker(time.Second)
+		defer tick.Stop()
+		for {
+			select {
+			case <-stopDog:
+				return
+			case <-tick.C:
+			}
+			var stuck []string
+			for w := range started {
+				if t0 := started[w].Load(); t0 != 0 && time.Now().UnixNano()-t0 > int64(90*time.Second) {
+					stuck = append(stuck, fmt.Sprintf("%s.running.%d", p.Out, w))
+				}
+			}
+			if len(stuck) > 0 {
+				os.WriteFile(p.Out+".stuck", []byte(strings.Join(stuck, "\n")), 0o644)
+				fmt.Println("WATCHDOG: scenario(s) not finishing:", stuck)
+				os.Exit(3)
+			}
+		}
+	}()
 	for w := 0; w < p.Workers; w++ {
 		wg.Add(1)
 		w := w
@@ -218,7 +250,9 @@ func TestBatch(t *testing.T) {
 					tr = &[]string{}
 				}
 				mu.Unlock()
+				started[w].Store(time.Now().UnixNano())
 				impl, mr, mm, mons := runOneT(t, &p, sc, tr)
+				started[w].Store(0)
 				os.Remove(mark)
 				if tr != nil && mm == nil {
 					mu.Lock()
